@@ -10,7 +10,6 @@ import ExaModel.Props.C01
 #print axioms Exa.Props.C01.c01_flags_rfc
 #print axioms Exa.Props.C01.c01_classic_only_unicast
 #print axioms Exa.Props.C01.c01_constants_rfc
-#print axioms Exa.Props.C01.wfsess_plain
 #print axioms Exa.Props.C01.c01_full_fails_ext_nexthop
 #print axioms Exa.Props.C01.c01_full_fails_v4_nexthop_v6_route
 #print axioms Exa.Props.C01.c01_full_fails_self_router_id
